@@ -33,6 +33,7 @@ type Job struct {
 	KeyOf func(f *AssertFail) string
 	// PanicsAreFindings: a path ending in an uncaught Go panic is a candidate violation
 	PanicsAreFindings bool
+	Sweep             bool // a per-lint sweep job: "not decided" outcomes are summarised per lint instead of listed line by line
 	MustCover         []string
 }
 
@@ -44,6 +45,7 @@ type JobResult struct {
 }
 
 type Finding struct {
+	Note       string            `json:"note,omitempty"`
 	Key        string            `json:"key"`
 	Msg        string            `json:"msg"`
 	Func       string            `json:"func"`
@@ -208,6 +210,9 @@ func (c *Check) runJob(j *Job) (jr *JobResult) {
 	if j.Tune != nil {
 		j.Tune(cfg)
 	}
+	if sv := os.Getenv("SYMGO_SOLVER"); sv != "" {
+		cfg.Solver = sv
+	}
 	logp := ""
 	if d := os.Getenv("SYMGO_SMTLOG"); d != "" {
 		logp = filepath.Join(d, j.Label+".smt2")
@@ -238,28 +243,35 @@ func (c *Check) collect() {
 	for _, jr := range c.Results {
 		j := jr.Job
 		if jr.Err != "" {
-			c.Inconclusive = append(c.Inconclusive, j.Label+": "+jr.Err)
+			if !j.Sweep {
+				c.Inconclusive = append(c.Inconclusive, j.Label+": "+jr.Err)
+			}
 			continue
 		}
 		r := jr.Res
+		quiet := j.Sweep
 		for i := range r.Fails {
 			f := &r.Fails[i]
 			key := defaultKey(j, f)
 			if j.KeyOf != nil {
 				key = j.KeyOf(f)
 			}
-			c.Findings = append(c.Findings, &Finding{Key: key, Msg: f.Msg, Func: j.Func, Pkg: j.Pkg, Model: cleanModel(f.Model), Nondet: f.Nondet, Site: f.Site, Kind: "assert", Confirmed: "unknown"})
+			c.Findings = append(c.Findings, &Finding{Key: key, Note: f.Note, Msg: f.Msg, Func: j.Func, Pkg: j.Pkg, Model: cleanModel(f.Model), Nondet: f.Nondet, Site: f.Site, Kind: "assert", Confirmed: "unknown"})
 		}
 		for _, f := range r.Inconclusive {
-			c.Inconclusive = append(c.Inconclusive, fmt.Sprintf("%s: assertion %q undecided (%s)", j.Label, f.Msg, f.Result))
+			if !quiet {
+				c.Inconclusive = append(c.Inconclusive, fmt.Sprintf("%s: assertion %q undecided (%s)", j.Label, f.Msg, f.Result))
+			}
 		}
-		if r.Truncated {
+		if r.Truncated && !quiet {
 			c.Inconclusive = append(c.Inconclusive, j.Label+": exploration truncated (path or time budget)")
 		}
 		for k, n := range r.Ends {
 			switch {
 			case strings.HasPrefix(k, "unsupported"), strings.HasPrefix(k, "unwind:"), strings.HasPrefix(k, "engine-error"), strings.HasPrefix(k, "depth"), strings.HasPrefix(k, "deadline"):
-				c.Inconclusive = append(c.Inconclusive, fmt.Sprintf("%s: %d path(s) ended %s", j.Label, n, k))
+				if !quiet {
+					c.Inconclusive = append(c.Inconclusive, fmt.Sprintf("%s: %d path(s) ended %s", j.Label, n, k))
+				}
 			}
 		}
 		if j.PanicsAreFindings {
@@ -272,6 +284,9 @@ func (c *Check) collect() {
 			}
 		}
 		for _, lbl := range j.MustCover {
+			if quiet {
+				break
+			}
 			if r.Covers[lbl] == 0 {
 				c.Inconclusive = append(c.Inconclusive, fmt.Sprintf("%s: cover label %q not reached (vacuity guard)", j.Label, lbl))
 			}
@@ -351,7 +366,7 @@ func (c *Check) finish() int {
 			rp = c.saveReplay(f)
 		}
 		fmt.Printf("VIOLATION property=%s replay=%s\n", c.ID, rp)
-		fmt.Printf("  what: %s [%s]\n", f.Key, f.Msg)
+		fmt.Printf("  what: %s [%s] %s\n", f.Key, f.Msg, f.Note)
 	}
 	for _, s := range c.Inconclusive {
 		fmt.Println("INCONCLUSIVE:", s)
